@@ -49,16 +49,17 @@ def handle : Handler := fun req => do
   | "case" =>
     let old ← decJ (← field req "old")
     let new ← decJ (← field req "new")
-    let d := J.diffTop old new
+    -- exactly the expressions of theorems `merge_diff` / `mergeJs_diff` at `f = depth old + 1`
+    let f := J.depth old + 1
+    let d := J.diffA J.reorder f old new
     let prev := J.strip old
-    let merged := match d with
-      | none => Except.ok prev
-      | some dd => J.mergeTop prev dd
+    let merged := J.applyA f prev d
+    let mergedJs := J.applyJs f prev d
     pure <| Json.mkObj [
       ("wf", wf old && wf new),
       ("delta", jOpt encJ d),
       ("merged", jExcept encJ merged),
-      ("mergedJs", jExcept encJ (match d with | none => Except.ok prev | some dd => J.mergeJsTop prev dd)),
+      ("mergedJs", jExcept encJ mergedJs),
       ("spec", encJ (J.strip new)),
       ("stripOld", encJ prev)]
   | "merge" =>
